@@ -259,6 +259,9 @@ func Verify(pub *PublicKey, hash []byte, r, s *big.Int) bool {
  */
 func Encrypt(pub *PublicKey, data []byte, random io.Reader, mode int) ([]byte, error) {
 	length := len(data)
+	if length == 0 {
+		return nil, errors.New("Encrypt: empty plaintext")
+	}
 	for {
 		c := []byte{}
 		curve := pub.Curve
